@@ -17,6 +17,7 @@
 package oauth2
 
 import (
+	"math"
 	"strconv"
 	"time"
 
@@ -29,6 +30,10 @@ import (
 // epoch, ignoring leap seconds. Non-integer values can be represented
 // in the serialized format, but we round to the nearest second.
 // See RFC7519 Section 2: https://tools.ietf.org/html/rfc7519#section-2
+// maxNumericDate is the largest Unix time in seconds time.Unix can hold without wrapping around
+// (math.MaxInt64 minus the seconds between year 1 and 1970).
+const maxNumericDate = math.MaxInt64 - 62135596800
+
 type NumericDate int64
 
 // UnmarshalJSON reads a date from its JSON representation.
@@ -40,7 +45,16 @@ func (n *NumericDate) UnmarshalJSON(b []byte) error {
 		return errorchain.NewWithMessage(heimdall.ErrConfiguration, "failed to parse date").CausedBy(err)
 	}
 
-	*n = NumericDate(f)
+	// The conversion of an out-of-range float64 is implementation-defined (MinInt64 on amd64), which made
+	// far-future dates look like "not set". Saturate at the seconds time.Time can represent instead.
+	switch {
+	case f >= maxNumericDate:
+		*n = NumericDate(maxNumericDate)
+	case f <= math.MinInt64:
+		*n = NumericDate(math.MinInt64)
+	default:
+		*n = NumericDate(f)
+	}
 
 	return nil
 }
